@@ -130,7 +130,31 @@ WRAPPERS = [
     ("style-display-none", '<g style="display:none">', '</g>'),
 ]
 WNAMES = [w[0] for w in WRAPPERS]
-WMAP = {w[0]: w for w in WRAPPERS}
+# wrappers outside the enumerated alphabet: each agrees with "svg-vb" in viewBox, width and height and differs in what
+# a cache keyed on those would leave out (position, alignment).  Used for the histories over different documents.
+COLLIDING = [
+    ("svg-vb-shifted", '<svg x="-5" y="3" width="40" height="30" viewBox="2 1 20 10">', '</svg>'),
+    ("svg-vb-max", '<svg x="10" y="20" width="40" height="30" viewBox="2 1 20 10" preserveAspectRatio="xMaxYMax meet">', '</svg>'),
+    ("svg-vb-slice2", '<svg x="10" y="20" width="40" height="30" viewBox="2 1 20 10" preserveAspectRatio="xMinYMax slice">', '</svg>'),
+]
+COLLIDING_ROOTS = [
+    ("size-vb-aspect-max", 'width="200" height="100" viewBox="0 0 100 100" preserveAspectRatio="xMaxYMax meet"'),
+    ("size-vb-aspect-none", 'width="200" height="100" viewBox="0 0 100 100" preserveAspectRatio="none"'),
+]
+WMAP = {w[0]: w for w in WRAPPERS + COLLIDING}
+
+
+def colliding_documents():
+    """(root name, root attributes, chain, leaf name, leaf text): documents that share viewBox / width / height with
+    another one and differ in position or alignment only (and the ones they collide with)"""
+    L = dict(LEAVES)
+    R = dict(ROOTS)
+    out = []
+    for w in ["svg-vb"] + [c[0] for c in COLLIDING]:
+        out.append(("size", R["size"], (w,), "rect", L["rect"]))
+    for rn, ra in [("size-vb-aspect", R["size-vb-aspect"])] + COLLIDING_ROOTS:
+        out.append((rn, ra, ("g-translate",), "rect-pct", L["rect-pct"]))
+    return out
 
 
 def build_doc(root, chain, leaf, counter=None):
@@ -202,6 +226,10 @@ class Documents(SubCheck):
 
     def size(self):
         return len(self.space)
+
+    def crosstalk_cases(self):
+        return [dict(root=rn, chain=list(ch), leaf=ln, cfg=dict(CONFIGS_FULL[ci]), doc=build_doc(ra, ch, lt))
+                for (rn, ra, ch, ln, lt) in colliding_documents() for ci in (0, len(CONFIGS_FULL) // 2)]
 
     def case(self, i):
         ri, chain, li, ci = self.space[i]
